@@ -76,6 +76,12 @@ class TemperatureUnitType(UnitType):
             return False
         return True
     
+    def _convert_Cel_Cel(self, value):
+        return value
+
+    def _convert_degF_degF(self, value):
+        return value
+
     def _convert_K_Cel(self, value):
         return value-273.15
         
@@ -144,6 +150,7 @@ class LogarithmicUnitType(UnitType):
         'Pa_BSPL':  ("_convert_Ratio_B",   2,   50),
         'BSPL_Pa':  ("_convert_B_Ratio",   2,   0.02),
         # same decibel conversions
+        'Np_Np':    ("_convert_B_B",       0),
         'Bm_Bm':    ("_convert_B_B",       0),
         'BW_BW':    ("_convert_B_B",       0),
         'BmW_BmW':  ("_convert_B_B",       0),
